@@ -27,6 +27,13 @@ func NewH264Packetizer(meta *codec.VideoMeta, tsframeWriter FrameWriter) Packeti
 func (h264p *h264Packetizer) Packetize(frame *codec.Frame) error {
 	nalType := frame.Payload[0] & 0x1F
 
+	// 7-9 (in-band SPS/PPS/AUD) are not samples of their own: an AUD is written
+	// before every slice and SPS/PPS before every IDR (see prepareAvcHeader).
+	// Writing them here would put bytes without a start code into the ES.
+	if nalType >= h264.NalSps && nalType <= h264.NalAud {
+		return nil
+	}
+
 	dts := frame.Dts * 90000 / int64(time.Second) // 90000Hz
 	pts := frame.Pts * 90000 / int64(time.Second) // 90000Hz
 	// set fields
